@@ -75,6 +75,28 @@ def run(prop, tier):
         v.violation(f"repository test {t_['label'].split('#')[0]}: recorded call of {t_['events'][0]['kind']} is not explained by the specification "
                     f"at record {idx} ({ev['ev']}) (wiring of the two fits / exact case value / returned parameters / fit protocol)",
                     {"label": t_["label"], "index": idx, "trace": t_["events"][max(0, idx - 1): idx + 1]}, ["trace", "suite", ev["ev"]])
+    # binding self-check (negative controls): a recorded value moved by one unit of the order lane, a fit removed, the tested value of
+    # the conditional fit changed -- each must be REJECTED, otherwise the trace specification constrains nothing
+    import copy
+    neg = []
+    base_ = [t_ for t_ in st if t_["id"] in sacc][:3]
+    for j, t_ in enumerate(base_):
+        c_ = copy.deepcopy(t_)
+        if j % 3 == 0:
+            c_["events"][-1]["result"][2] += 1
+        elif j % 3 == 1:
+            k_ = max(i for i, e in enumerate(c_["events"]) if e["ev"] == "fit.shim")
+            c_["events"] = c_["events"][:k_] + [c_["events"][-1]]
+        else:
+            sh = next(e for e in c_["events"] if e["ev"] == "fit.shim")
+            for fv in sh["fixed_vals"]:
+                if fv[0] == c_["events"][0]["poi"]:
+                    fv[1] = [fv[1][0], fv[1][1], fv[1][2] + 1]
+        c_["id"] = len(neg) + 1
+        neg.append(c_)
+    nacc, nrej = tracecheck.check("TraceTestStat", neg, tag="c06neg", constants={"MaxUlps": 64}, spec="TraceSpec2")
+    if len(nrej) != len(neg):
+        raise Machinery(f"binding self-check: {len(neg) - len(nrej)} of {len(neg)} corrupted repository traces were accepted by TraceTestStat")
     skinds = {}
     for t_ in st:
         skinds[t_["events"][0]["kind"]] = skinds.get(t_["events"][0]["kind"], 0) + 1
@@ -84,7 +106,7 @@ def run(prop, tier):
         case_table_rows=len(table), realised_case_classes=len(hit), realised=hit,
         traces_validated_against_impl=len(accepted) + len(sacc), hook_traces_rejected=len(rejected) + len(srej), statistic_calls=stats,
         driver_teststat_traces=len(accepted), repository_tests_traced=len(stests), repository_teststat_traces_validated=len(sacc),
-        repository_teststat_kinds=skinds,
+        repository_teststat_kinds=skinds, corrupted_traces_rejected=len(nrej),
         evaluations=stats, distinct_nontrivial=nontriv,
         rule=("TestStat.tla enumerates the complete case table (5 statistics x consistent order facts x sign of the likelihood-ratio "
               "difference) and proves the coded branch structure equals the definition; FitClosed.tla scenarios (counts above/at/below the "
